@@ -768,7 +768,12 @@ impl ProxyServer {
 
         const MAX_ERROR_DETAILS_LEN: usize = 4096; // 4KB
         if error_details.len() > MAX_ERROR_DETAILS_LEN {
-            error_details.truncate(MAX_ERROR_DETAILS_LEN);
+            // String::truncate panics when the new length is not on a char boundary
+            let mut end = MAX_ERROR_DETAILS_LEN;
+            while !error_details.is_char_boundary(end) {
+                end -= 1;
+            }
+            error_details.truncate(end);
         }
 
         let summary = ProxySummary {
